@@ -657,7 +657,9 @@ def findwalks(CIJ):
     -----
     Wq grows very quickly for larger N,K,q. Weights are discarded.
     '''
-    CIJ = binarize(CIJ, copy=True)
+    # walk counts are accumulated in float, whatever the dtype of the input
+    # (products of bool arrays are logical, small integer types overflow)
+    CIJ = binarize(CIJ, copy=True).astype(float)
     n = len(CIJ)
     Wq = np.zeros((n, n, n))
     CIJpwr = CIJ.copy()
